@@ -713,7 +713,16 @@ def rule_stage_layering(ctx, mode=None):
         if key in done:
             continue
         done.add(key)
-        if re.search(START, cb.id):
+        start_value = False
+        if cb.impl and cb.impl.get("self_adt") == "solvers::maximal_extension_computer::MaximalExtensionComputer" and re.search(r"grounded_extension$", t.id):
+            # the grounded extension only becomes the stored current set (the start of the search), wherever the Init step is written
+            for st in cb.sites():
+                nd = st.node
+                if st.si is not None and nd["k"] == "assign" and nd["dst"]["l"] == 1 and nd["dst"]["p"]:
+                    _, calls, _ = data_deps(cb, nd["rv"]["ops"][0]) if nd["rv"].get("ops") else (None, [], None)
+                    if any((c.bb, c.si) == (s.bb, s.si) for c in calls):
+                        start_value = True
+        if re.search(START, cb.id) or start_value:
             r.ok("StageSemanticsSolver|%s" % strip_generics(cb.id), "listed: the range search starts from the grounded extension as a conflict-free set (start value only)", s.loc())
             continue
         n_bad += 1
